@@ -33,7 +33,7 @@ def main():
     ap.add_argument("--n", type=int, default=15, help="runs per op per workload")
     ap.add_argument("--only", default="A,B,C")
     a = ap.parse_args()
-    tmp = tempfile.mkdtemp(prefix="selftest_", dir="/var/tmp")
+    tmp = tempfile.mkdtemp(prefix="selftest_", dir=None)
     runs = [("a_16_h0", 16, 0), ("b_16_h0", 16, 0), ("c_4_h0", 4, 0), ("d_16_h77", 16, 77)]
     res = {}
     for tag, nproc, hs in runs:
